@@ -180,7 +180,24 @@ func init() {
 		xs, _ := decMItems(a[3:])
 		s, ids := buildSubs(xs, spare)
 		s.ForceDuration(time.Duration(d), b)
-		return encMItems(observe(s.Items, ids))
+		out := encMItems(observe(s.Items, ids))
+		// the caller owns what it got: it edits the cues the call created (the filler) in place, and the same call on
+		// a fresh copy of the list must still answer the same
+		for _, it := range s.Items {
+			if _, old := ids[it]; !old && it != nil {
+				for li := range it.Lines {
+					for k := range it.Lines[li].Items {
+						it.Lines[li].Items[k].Text = "THE END"
+					}
+				}
+			}
+		}
+		s2, ids2 := buildSubs(xs, spare)
+		s2.ForceDuration(time.Duration(d), b)
+		if out2 := encMItems(observe(s2.Items, ids2)); out2 != out {
+			return "second-call-differs " + out2
+		}
+		return out
 	}, gen: func(c *ctx) {
 		run := func(d int64, b bool, xs []mItem, spare int) {
 			bi := 0
